@@ -115,6 +115,16 @@ class Report:
         print('VIOLATION property=%s replay=%s%s' % (self.prop, path, tail), flush=True)
 
     def known(self, what: str):
+        """a finding is only 'known' when the committed known_findings.json lists its id as open"""
+        fid = what.split(':', 1)[0].strip()
+        try:
+            with open(os.path.join(VERIF, 'known_findings.json')) as f:
+                listed = {x['id'] for x in json.load(f)['findings'] if x.get('status') == 'open' and x.get('property') == self.prop}
+        except Exception:
+            listed = set()
+        if fid not in listed:
+            self.violation({'kind': 'counterexample', 'what': 'a defect the known-findings file does not list as open', 'finding': what})
+            return
         if what not in self.known_seen:
             self.known_seen.append(what)
             print('KNOWN-FINDING: property=%s %s' % (self.prop, what), flush=True)
